@@ -27,10 +27,10 @@ func TBool(b bool) Tok {
 	return TNu(0)
 }
 func TUnit() Tok       { return TL() }
-func TOk(t Tok) Tok    { return TL(TNu(0), t) }
-func TErr(tag int) Tok { return TL(TNu(1), TNi(tag)) }
+func TOk(t Tok) Tok    { return TL(TL(), TNu(0), t) }
+func TErr(tag int) Tok { return TL(TL(), TNu(1), TNi(tag)) }
 func TPanic(tag int) Tok {
-	return TL(TNu(2), TNi(tag))
+	return TL(TL(), TNu(2), TNi(tag))
 }
 func TListU(l []uint64) Tok {
 	out := make([]Tok, len(l))
@@ -149,3 +149,15 @@ func (p *tokParser) tok() (Tok, error) {
 	}
 	return Tok{}, fmt.Errorf("bad char %q at %d in %s", c, p.i, strconv.Quote(p.s))
 }
+
+// outcome tokens: (() 0 payload) | (() 1 errtag) | (() 2 panictag)
+func outcomeKind(o Tok) int {
+	if o.Kind == 2 && len(o.L) == 3 && o.L[0].Kind == 2 && len(o.L[0].L) == 0 && o.L[1].Kind == 0 {
+		return int(o.L[1].U())
+	}
+	return -1
+}
+func isOk(o Tok) bool    { return outcomeKind(o) == 0 }
+func isErr(o Tok) bool   { return outcomeKind(o) == 1 }
+func isPanic(o Tok) bool { return outcomeKind(o) == 2 }
+func okPayload(o Tok) Tok { return o.L[2] }
